@@ -269,7 +269,19 @@ package fit
 //@@ a stream position p is a clean end of input: EOF strictly before any fault
 //@ pred cleanEnd(r io.Reader, p int) := p == eofpos(r) && eofpos(r) < faultpos(r)
 
+//@@ C04: one predicate for "this header is acceptable", shared by every API that checks headers
+//@ spec hdrSum(h Header) uint16 := dyncrc16.UpdSpec(dyncrc16.UpdSpec(dyncrc16.UpdSpec(dyncrc16.UpdSpec(dyncrc16.UpdSpec(dyncrc16.UpdSpec(dyncrc16.UpdSpec(dyncrc16.UpdSpec(dyncrc16.UpdSpec(dyncrc16.UpdSpec(dyncrc16.UpdSpec(dyncrc16.UpdSpec(dyncrc16.UpdSpec(dyncrc16.UpdSpec(0, h.Size), h.ProtocolVersion), byte(h.ProfileVersion)), byte(h.ProfileVersion>>8)), byte(h.DataSize)), byte(h.DataSize>>8)), byte(h.DataSize>>16)), byte(h.DataSize>>24)), h.DataType[0]), h.DataType[1]), h.DataType[2]), h.DataType[3]), byte(h.CRC)), byte(h.CRC>>8))
+//@ pred hdrOK(h Header) := h.ProtocolVersion>>4 <= 2 && h.DataType[0] == '.' && h.DataType[1] == 'F' && h.DataType[2] == 'I' && h.DataType[3] == 'T' &&
+//@  | (h.Size == 12 || (h.Size == 14 && (h.CRC == 0 || hdrSum(h) == 0)))
+
+//@ func (h Header) CheckIntegrity() (err error)
+//@   props C01 C04
+//@   ensures [iff] (err == nil) <==> hdrOK(h)
+//@   assigns nothing
+
 //@ func (d *decoder) decodeHeader() (err error)
+//@   requires [sum0] {C04} dyncrc16.GhostSum(d.crc) == 0
+//@   ensures [hdr-ok] {C04} err == nil ==> hdrOK(d.h)
 //@   props C01 C10 C11 C04
 //@   requires inv_io(d)
 //@   ensures [inv] inv_io(d)
@@ -920,6 +932,12 @@ package fit
 //@   ensures [inv] inv_io(d)
 //@   ensures [consumed] err == nil ==> pos(d.r) == old(pos(d.r))+2
 //@   ensures [bounded] pos(d.r) >= old(pos(d.r)) && pos(d.r) <= old(pos(d.r))+2
+//@@ C04: the verdict is the residue rule and nothing else: the file is accepted iff the running sum over
+//@@ everything read so far, continued over the two stored CRC bytes, is zero; the stored value is reported
+//@   ensures [sum] {C04} pos(d.r) == old(pos(d.r))+2 ==> dyncrc16.GhostSum(d.crc) == dyncrc16.UpdSpec(dyncrc16.UpdSpec(old(dyncrc16.GhostSum(d.crc)), instream(d.r, old(pos(d.r)))), instream(d.r, old(pos(d.r))+1))
+//@   ensures [sound] {C04} err == nil ==> dyncrc16.GhostSum(d.crc) == 0
+//@   ensures [complete] {C04} pos(d.r) == old(pos(d.r))+2 && dyncrc16.GhostSum(d.crc) == 0 ==> err == nil
+//@   ensures [stored] {C04} pos(d.r) == old(pos(d.r))+2 ==> d.file.CRC == uint16(instream(d.r, old(pos(d.r))))|uint16(instream(d.r, old(pos(d.r))+1))<<8
 //@   assigns d.tmp[..], pos(d.r), dyncrc16.GhostSum(d.crc), d.file.CRC
 
 //@@ assumed for now (range over a map, sort.Sort): export of the unknown-item counters
